@@ -158,7 +158,10 @@ func (r *Report) Finish() int {
 			solverMs += run.Ms
 		}
 		if v.Status == "engine-error" {
-			fmt.Fprintf(os.Stderr, "ENGINE-ERROR: solvers disagree on %s (%s)\n", name, v.SMTPath)
+			fmt.Fprintf(os.Stderr, "ENGINE-ERROR: solvers disagree on / all reject %s (%s)\n", name, v.SMTPath)
+			for _, run := range v.Runs {
+				fmt.Fprintf(os.Stderr, "   %s: %s %.200s\n", run.Solver, run.Result, strings.ReplaceAll(run.Output, "\n", " "))
+			}
 			r.EngineErr = true
 			continue
 		}
